@@ -23,11 +23,19 @@ import (
 	"encoding/json"
 	"flag"
 	"fmt"
+	"io"
+	"math/rand"
+	"net"
 	"os"
 	"strconv"
+	"sync"
 	"time"
 
+	"github.com/sirupsen/logrus"
+
 	"github.com/AliceO2Group/Control/apricot/local"
+	"github.com/AliceO2Group/Control/apricot/remote"
+	"github.com/AliceO2Group/Control/configuration"
 	"github.com/AliceO2Group/Control/configuration/cfgbackend"
 
 	"verif/harness/fakeconsul"
@@ -69,7 +77,9 @@ type Step struct {
 type Scenario struct {
 	ID     int    `json:"id"`
 	Origin string `json:"origin"`
-	Mode   string `json:"mode"` // "svc": local.Service.NewRunNumber, "src": ConsulSource.GetNextUInt32
+	// "svc": local.Service.NewRunNumber, "src": ConsulSource.GetNextUInt32, "rpc": the way a core with an apricot:// URI
+	// gets its numbers - remote.RemoteService -> gRPC -> remote.RpcServer (the apricot daemon) -> local.Service -> Consul
+	Mode string `json:"mode"`
 	Init   struct {
 		Present bool   `json:"present"`
 		Val     int64  `json:"val"`
@@ -77,6 +87,95 @@ type Scenario struct {
 		Gidx    uint64 `json:"gidx"`
 	} `json:"init"`
 	Steps []Step `json:"steps"`
+	// Stress: no schedule is imposed - Callers goroutines share ONE service object (one core) and call Calls times each as
+	// fast as they can against a Consul that answers at once; every log call of the code under test is a scheduling point
+	// (a logrus hook yields for a random few hundred microseconds).  Judged on the returned numbers.
+	Stress *struct {
+		Callers int   `json:"callers"`
+		Calls   int   `json:"calls"`
+		Seed    int64 `json:"seed"`
+	} `json:"stress,omitempty"`
+}
+
+// jitterHook makes every log entry of the code under test a point where the goroutine may lose the processor.
+type jitterHook struct {
+	mu  sync.Mutex
+	rng *rand.Rand
+	on  bool
+}
+
+func (h *jitterHook) Levels() []logrus.Level { return logrus.AllLevels }
+func (h *jitterHook) Fire(*logrus.Entry) error {
+	h.mu.Lock()
+	on, d := h.on, time.Duration(0)
+	if on {
+		d = time.Duration(h.rng.Intn(300)) * time.Microsecond
+	}
+	h.mu.Unlock()
+	if on {
+		time.Sleep(d)
+	}
+	return nil
+}
+
+var jitter = &jitterHook{rng: rand.New(rand.NewSource(1))}
+
+func runStress(rec *vtrace.Recorder, sc *Scenario) bool {
+	r := &run{rec: rec, sc: sc, srv: fakeconsul.New(), parkCh: make(chan *fakeconsul.Request, 64),
+		clients: map[string]*client{}, gens: map[int]caller{}}
+	defer r.srv.Close()
+	r.key = svcKey
+	if sc.Mode == "src" {
+		r.key = srcKey
+	}
+	if sc.Init.Present {
+		r.srv.Put(r.key, []byte(strconv.FormatUint(dec(sc.Init.Val), 10)))
+	}
+	before := r.kvState()
+	rec.Emit("Reset", "scn", sc.ID, "mode", sc.Mode, "key", r.key, "kv", before, "gidx", r.srv.Index(), "origin", sc.Origin)
+	c := r.caller()
+	if r.failed {
+		return false
+	}
+	jitter.mu.Lock()
+	jitter.rng = rand.New(rand.NewSource(sc.Stress.Seed))
+	jitter.on = true
+	jitter.mu.Unlock()
+	nums := make([][]int64, sc.Stress.Callers)
+	nerr := make([]int, sc.Stress.Callers)
+	var wg sync.WaitGroup
+	for i := 0; i < sc.Stress.Callers; i++ {
+		wg.Add(1)
+		go func(i int) {
+			defer wg.Done()
+			for k := 0; k < sc.Stress.Calls; k++ {
+				n, err := c.next()
+				if err != nil {
+					nerr[i]++
+				} else {
+					nums[i] = append(nums[i], int64(n))
+				}
+			}
+		}(i)
+	}
+	done := make(chan struct{})
+	go func() { wg.Wait(); close(done) }()
+	select {
+	case <-done:
+	case <-time.After(120 * time.Second):
+		r.harnessError("stress run does not end")
+		return false
+	}
+	jitter.mu.Lock()
+	jitter.on = false
+	jitter.mu.Unlock()
+	errs := 0
+	for _, e := range nerr {
+		errs += e
+	}
+	rec.Emit("Stress", "scn", sc.ID, "nums", nums, "errors", errs, "before", before, "after", r.kvState())
+	rec.Emit("End", "scn", sc.ID, "deadnumbers", 0)
+	return true
 }
 
 type result struct {
@@ -99,6 +198,10 @@ type caller interface{ next() (uint32, error) }
 type svcCaller struct{ s *local.Service }
 
 func (c svcCaller) next() (uint32, error) { return c.s.NewRunNumber() }
+
+type rpcCaller struct{ s configuration.Service }
+
+func (c rpcCaller) next() (uint32, error) { return c.s.NewRunNumber() }
 
 type srcCaller struct{ s *cfgbackend.ConsulSource }
 
@@ -237,6 +340,21 @@ func (r *run) caller() caller {
 			r.harnessError("NewConsulSource: " + err.Error())
 		}
 		c = srcCaller{s}
+	} else if r.sc.Mode == "rpc" {
+		s, err := local.NewService(r.srv.URI())
+		if err != nil {
+			r.harnessError("NewService: " + err.Error())
+		}
+		lis, err := net.Listen("tcp", "127.0.0.1:0")
+		if err != nil {
+			r.harnessError("listen: " + err.Error())
+		}
+		go func() { _ = remote.NewServer(s).Serve(lis) }()
+		rs, err := remote.NewService("apricot://" + lis.Addr().String())
+		if err != nil {
+			r.harnessError("remote.NewService: " + err.Error())
+		}
+		c = rpcCaller{rs}
 	} else {
 		s, err := local.NewService(r.srv.URI())
 		if err != nil {
@@ -421,6 +539,9 @@ func (r *run) step(st Step) bool {
 }
 
 func runScenario(rec *vtrace.Recorder, sc *Scenario) bool {
+	if sc.Stress != nil {
+		return runStress(rec, sc)
+	}
 	r := &run{rec: rec, sc: sc, srv: fakeconsul.New(), parkCh: make(chan *fakeconsul.Request, 64),
 		clients: map[string]*client{}, gens: map[int]caller{}}
 	defer r.srv.Close()
@@ -476,6 +597,10 @@ func main() {
 	scnFile := flag.String("scenarios", "", "NDJSON scenarios")
 	traceFile := flag.String("trace", "", "NDJSON trace to write")
 	flag.Parse()
+	// the code under test logs through logrus: nothing is printed, every level reaches the (normally idle) jitter hook
+	logrus.SetOutput(io.Discard)
+	logrus.SetLevel(logrus.TraceLevel)
+	logrus.AddHook(jitter)
 	f, err := os.Open(*scnFile)
 	if err != nil {
 		fmt.Fprintln(os.Stderr, err)
